@@ -6,6 +6,11 @@ from abc import ABC, abstractmethod
 from numbers import Integral, Real
 
 import numpy as np
+try:
+    from sklearn.utils.validation import validate_data as _validate_data
+except ImportError:  # scikit-learn < 1.6
+    def _validate_data(estimator, *args, **kwargs):
+        return estimator._validate_data(*args, **kwargs)
 from sklearn.base import ClusterMixin, BaseEstimator
 from sklearn.neural_network._stochastic_optimizers import AdamOptimizer, SGDOptimizer
 from sklearn.utils import check_array, check_random_state
@@ -231,7 +236,7 @@ class DiscriminativeModel(ClusterMixin, BaseEstimator, ABC):
 
         # Check that X has the correct shape
         X = check_array(X)
-        X = self._validate_data(X, accept_sparse=True, dtype=np.float64, ensure_min_samples=self.n_clusters)
+        X = _validate_data(self, X, accept_sparse=True, dtype=np.float64, ensure_min_samples=self.n_clusters)
 
         # Fix the random seed
         random_state = check_random_state(self.random_state)
